@@ -197,3 +197,65 @@ pub fn run_random(seed: u64, count: usize, max_instances: usize, mode: &str, out
         out.write_all(b"\n").unwrap();
     }
 }
+
+/// C16 closure: one instance per database class populated with the class's full default property
+/// set (nearest default on the superclass chain wins).
+pub fn run_defaults(out: &mut dyn Write, with_bytes_every: usize) {
+    std::panic::set_hook(Box::new(|_| {}));
+    let db = rbx_reflection_database::get();
+    let mut names: Vec<&str> = db.classes.keys().map(|k| k.as_ref()).collect();
+    names.sort();
+    for (i, cname) in names.iter().enumerate() {
+        let mut props: Vec<(String, rbx_dom_weak::types::Variant)> = Vec::new();
+        let mut cur = db.classes.get(*cname);
+        while let Some(c) = cur {
+            let mut dn: Vec<_> = c.default_properties.iter().collect();
+            dn.sort_by(|a, b| a.0.cmp(b.0));
+            for (k, v) in dn {
+                if !props.iter().any(|(n, _)| n == k.as_ref()) {
+                    props.push((k.to_string(), v.clone()));
+                }
+            }
+            cur = c.superclass.as_ref().and_then(|s| db.classes.get(s.as_ref()));
+        }
+        let mut dom = WeakDom::new(rbx_dom_weak::InstanceBuilder::new("DataModel"));
+        let root = dom.root_ref();
+        let mut b = rbx_dom_weak::InstanceBuilder::new(*cname).with_name(format!("Default{}", cname));
+        for (k, v) in props {
+            if k == "UniqueId" {
+                continue;
+            }
+            b.add_property(k.as_str(), v);
+        }
+        let r = dom.insert(root, b);
+        let ev = bin_event(&format!("defaults:{}", cname), &dom, &[r], with_bytes_every > 0 && i % with_bytes_every == 0);
+        serde_json::to_writer(&mut *out, &ev).unwrap();
+        out.write_all(b"\n").unwrap();
+    }
+}
+
+/// C16 closure: every serializable, non-migrating descriptor (canonical and alias spellings) once,
+/// as a one-property instance with a generated value of the declared type; several per case.
+pub fn run_descriptors(seed: u64, per_case: usize, out: &mut dyn Write) {
+    std::panic::set_hook(Box::new(|_| {}));
+    let db = rbx_reflection_database::get();
+    let known = gen::known_props(db);
+    let mut rng = StdRng::seed_from_u64(seed);
+    for (ci, chunk) in known.chunks(per_case).enumerate() {
+        let mut dom = WeakDom::new(rbx_dom_weak::InstanceBuilder::new("DataModel"));
+        let root = dom.root_ref();
+        let mut roots = Vec::new();
+        for k in chunk {
+            if k.name == "UniqueId" || k.name == "Name" {
+                continue;
+            }
+            if let Some(v) = gen::value_of(k.ty, &mut rng, &roots, false) {
+                let b = rbx_dom_weak::InstanceBuilder::new(k.class.as_str()).with_name("D").with_property(k.name.as_str(), v);
+                roots.push(dom.insert(root, b));
+            }
+        }
+        let ev = bin_event(&format!("desc:{}:{}", seed, ci), &dom, &roots, ci % 10 == 0);
+        serde_json::to_writer(&mut *out, &ev).unwrap();
+        out.write_all(b"\n").unwrap();
+    }
+}
